@@ -120,6 +120,11 @@ func (b *writeBuffer) advancePastLeadingZeroes() (n uint64) {
 	}
 	n = uint64(i - b.p)
 	b.p = i
+	if b.p < len(b.prev) {
+		// b.prev[b.p:] starts with a non-zero byte. The bytes in b.curr come
+		// after all of the bytes in b.prev[b.p:].
+		return n
+	}
 
 	// Consume zeroes from b.curr.
 	i = 0
